@@ -5,5 +5,53 @@ ID = "C15"
 LEVEL = "other"
 FUNCTIONS = []
 SHELL = [c08.decisions, c15.folds]
-LEVEL_TEXT = ("bounded shell (kernel pending)")
+LEVEL_TEXT = ("Arithmetic kernel (SMT lemmas over the index expressions read from the AST of Transmitter._reset and walk_forward): the start index "
+              "ranges over exactly the positions where the episode fits, the slice has the requested length and stays inside the fold, "
+              "walk-forward test windows have the requested size, are disjoint, ordered and begin right after their training window; "
+              "TradingEnv.__init__ adds one state to a configured number of decisions. Bounded shell: the real numpy/pandas code on "
+              "enumerated grids, folds (with event-less timesteps), lengths, seeds, and the configured length surviving one-off overrides. "
+              "The numpy mask/slice semantics themselves are library code (A3/A5) and are exercised, not proved.")
 EXPLANATION = LEVEL_TEXT
+
+import ast, z3
+from pyvc import front, lemma
+NOT_DEDUCTIVE = ["numpy boolean masks / slices / random.choice inside Transmitter._reset (A3): the index arithmetic is proved as lemmas over the "
+                 "expressions found in the AST, the array operations are exercised by the bounded shell"]
+
+
+def lemma_index_arithmetic(tier):
+    rel = "tradingenv/transmitter.py"
+    rs = ast.unparse(front.strip(front.find(rel, "Transmitter._reset")))
+    wf = ast.unparse(front.strip(front.find(rel, "Transmitter.walk_forward")))
+    env_init = ast.unparse(front.strip(front.find("tradingenv/env.py", "TradingEnv.__init__")))
+    out = [
+        lemma.check("C15::lemma::reset_uses_the_modelled_expressions",
+                    all(x in rs for x in ("steps[start_date <= steps]", "steps[steps <= end_date]", "steps[:-(episode_length - 1)]",
+                                          "np.random.choice(range(len(start_dates)), p=p)", "end_date_idx = start_date_idx + episode_length - 1",
+                                          "steps[start_date_idx:end_date_idx + 1]")),
+                    "Transmitter._reset: inclusive fold masks, start positions steps[:-(L-1)], uniform choice over them, slice [i : i+L-1+1]"),
+        lemma.check("C15::lemma::walk_forward_uses_the_modelled_expressions",
+                    all(x in wf for x in ("count[:-train_size - test_size + 1:test_size]", "train_start * int(sliding_window)", "train_start + train_size - 1",
+                                          "train_start + train_size", "train_start + train_size + test_size - 1")),
+                    "Transmitter.walk_forward: starts 0, test, 2*test, ... < n - train - test + 1"),
+        lemma.check("C15::lemma::configured_decisions_plus_one_state", "episode_length += 1" in env_init,
+                    "TradingEnv.__init__ turns a configured number of decisions n into n+1 states"),
+    ]
+    N, Lh, i, j = z3.Ints("N L i j")
+    hyp = [Lh >= 2, N >= Lh, 0 <= i, i < N - (Lh - 1)]            # start_dates = steps[:-(L-1)] has N-(L-1) elements; i drawn from range(len(start_dates))
+    out.append(lemma.prove("C15::lemma::episode_fits", hyp, z3.And(i + Lh - 1 <= N - 1, (i + Lh - 1 + 1) - i == Lh),
+                           detail="every drawn start leaves room for L states; the slice has exactly L elements"))
+    out.append(lemma.prove("C15::lemma::every_fitting_start_is_drawable", [Lh >= 2, N >= Lh, 0 <= j, j + Lh - 1 <= N - 1], z3.And(0 <= j, j < N - (Lh - 1)),
+                           detail="a start where the episode fits is an index of start_dates (positive probability under the uniform choice)"))
+    out.append(lemma.prove("C15::lemma::refused_iff_none_fits", [Lh >= 2, N >= 0], (N - (Lh - 1) <= 0) == (N < Lh),
+                           detail="np.random.choice over an empty range raises ValueError exactly when no position fits"))
+    n, tr, te, k = z3.Ints("n train test k")
+    ts = k * te
+    wfh = [tr >= 1, te >= 1, n >= tr + te, k >= 0, ts < n - tr - te + 1]
+    vs, ve, vs2 = ts + tr, ts + tr + te - 1, (k + 1) * te + tr
+    out.append(lemma.prove("C15::lemma::walk_forward_windows", wfh, z3.And(ve - vs + 1 == te, vs == (ts + tr - 1) + 1, ve < vs2, ve <= n - 1, vs >= 0),
+                           detail="test window k: requested size, adjacent to its training window, before the next test window, inside the grid"))
+    return out
+
+
+LEMMAS = [lemma_index_arithmetic]
